@@ -60,6 +60,16 @@ Theorem C01_defining_cdef_options : forall defining mention, struct_packed defin
 Proof. reflexivity. Qed.
 Print Assumptions C01_defining_cdef_options.
 
+(* Python side, second regenerated fact (api.py FFI._cdef): the re-completion loop iterates the list
+   that finish_backend_type grows, so struct/union types reached only through pointer fields of a
+   re-completed struct are completed too and "no declaration in this class is rejected" also holds
+   for tags that were opaque, used, and defined later.  This is an obligation on the SOURCE SHAPE
+   only (no model of the worklist): it breaks if the loop iterates a snapshot; the behaviour itself
+   is tied by the "opaque" stream of tools/props/c01.py against gcc. *)
+Theorem C01_completion_loop_reaches_lazy_types : completion_loop_iterates_growing_list = true.
+Proof. reflexivity. Qed.
+Print Assumptions C01_completion_loop_reaches_lazy_types.
+
 (* the loop invariant itself: one iteration of the field loop (any member, any state) keeps
    pos = 8*byteoffset + bitoffset, bitoffset < 8, byteoffsetmax = ceil(maxend/8), equal
    alignments and equal (normalised) field lists *)
